@@ -15,8 +15,9 @@ EXPLANATION = (
     'inside a track, end_of_track missing / repeated / in the middle / carrying the longest duration, empty tracks and no '
     'tracks, with and without skip_checks.  The result is compared with a reference merge written from the property '
     '(absolute ticks, order by (time, track, index), one trailing end_of_track, total duration = longest input), and '
-    'the inputs must be untouched (no store on any input message or track, every output message a different object).  '
-    'Structural side conditions: the sort is the only reordering and its key is the message time; skip_checks is forwarded.')
+    'the inputs must be untouched (no store on any input message or track, every output message a different object); both '
+    'values of skip_checks must give the same result.  Gaps far beyond any fixed-width limit and single-message tracks are among '
+    'the scenarios; that MidiFile.merged_track merges the current contents is shared with C16.')
 TRUSTED = ['midolint abstract interpreter (eager generators, stable sort on constant keys)', 'reference merge in midolint/rules/c12.py']
 ASSUMPTIONS = ['delta times are non-negative integers (C07); arithmetic on concrete times stands for the general prefix-sum argument']
 
@@ -160,33 +161,6 @@ def m_time(holder, x):
     return None
 
 
-def r12_structure(ctx):
-    mt = ctx.fn(ctx.p.func(TR, 'merge_tracks'))
-    w = ctx.where(mt)
-    # skip_checks forwarded to every helper call
-    n = 0
-    for c in astq.calls(mt.node):
-        q = astq.callee_qname(ctx.p, mt, c)
-        if q in (f'mido/midifiles/tracks.py::{x}' for x in ('_to_abstime', '_to_reltime', 'fix_end_of_track')):
-            n += 1
-            ctx.call_sites += 1
-            sk = astq.kwarg(c, 'skip_checks')
-            ctx.require(sk is not None and unparse(sk) == 'skip_checks', 'R12.4', f'{q.split("::")[1]}.skip_checks', ctx.where(mt, c),
-                        'skip_checks is not forwarded unchanged', construct=f'{mt.qname}::{q.split("::")[1]}::skip_checks')
-    ctx.floor('R12.4-forward', n, 3)
-    for name in ('_to_abstime', '_to_reltime', 'fix_end_of_track'):
-        f = ctx.fn(ctx.p.func(TR, name))
-        for c in astq.calls(f.node):
-            if isinstance(c.func, ast.Attribute) and c.func.attr == 'copy':
-                sk = astq.kwarg(c, 'skip_checks')
-                ctx.require(sk is not None and unparse(sk) == 'skip_checks', 'R12.4', f'{name}.copy.skip_checks', ctx.where(f, c),
-                            'skip_checks is not forwarded to copy()', construct=f'{f.qname}::copy::skip_checks')
-        # no attribute store on a parameter element
-        bad = [st for t, st in astq.stores_in(f.node) if isinstance(t, (ast.Attribute, ast.Subscript))]
-        ctx.require(not bad, 'R12.4', f'{name}.pure', ctx.where(f), f'{name} stores into an object it was given: {[unparse(b) for b in bad]}',
-                    construct=f'{f.qname}::stores')
-
-
 def r12_current_contents(ctx):
     """MidiFile.merged_track hands merge_tracks the tracks as they are NOW: no memo of an earlier merge (shared with C16:
     no derived state in MidiFile, observe - edit - observe equals a fresh file)."""
@@ -195,4 +169,4 @@ def r12_current_contents(ctx):
     ctx.borrow(c16.r16_3, 'R12.5')
 
 
-RULES = [('R12-scenarios', r12_scenarios), ('R12-structure', r12_structure), ('R12.5', r12_current_contents)]
+RULES = [('R12-scenarios', r12_scenarios), ('R12.5', r12_current_contents)]
